@@ -15,6 +15,7 @@ def run(ctx):
     ctx.step(_s3d, ctx)
     ctx.step(_p15i, ctx)
     ctx.step(_p10h, ctx)
+    ctx.step(_p13f, ctx)
 
 
 def _p13e(ctx):
@@ -283,3 +284,32 @@ def _p10h(ctx):
                 break
         ctx.add('P10h', 'T-FLOW', fn, okf, 'the returned handle wraps the Reader of the stream created in this call' if okf else
                 '%s does not return the Reader built for the newly published stream' % label, sub='reader')
+
+
+def _p13f(ctx):
+    """no buffer of the crate is sized from another buffer's capacity (`Vec::with_capacity(old.capacity() + 1)`): a
+    capacity that is carried from one replacement list to the next never shrinks, so memory grows with churn"""
+    F = ctx.F
+    n = 0
+    for name in sorted(F.fns):
+        f = F.fns[name]
+        if f.get('from_expansion') or name in F.fresh and ctx.revcg().get(name):
+            continue
+        sized = [b for b in f['blocks'] if not b['cleanup'] and b['term']['k'] == 'call' and
+                 re.search(r'(Vec|VecDeque|String)(::<.*>)?::(with_capacity|reserve|reserve_exact)$', b['term'].get('fn') or '')]
+        caps = [b for b in f['blocks'] if not b['cleanup'] and b['term']['k'] == 'call' and
+                re.search(r'(Vec|VecDeque|String)(::<.*>)?::capacity$', b['term'].get('fn') or '')]
+        if not sized and not caps:
+            continue
+        g = ctx.graph(name, 'BCast')
+        x = g.x
+        for c in x.ext_calls(r'(Vec|VecDeque|String)(::<.*>)?::(with_capacity|reserve|reserve_exact)$'):
+            n += 1
+            args = g.call_args(c)
+            bad = [s_ for a_ in args for s_ in g.deep_walk(a_) if s_[0] == 'call' and re.search(r'::capacity$', g.call_name(s_[1]) or '')]
+            ctx.add('P13f', 'T-FLOW', name, not bad, 'allocation sized from lengths / parameters, not from a capacity' if not bad else
+                    '%s sizes a new buffer from the capacity of another one (%s): the capacity is inherited by every replacement and never shrinks, memory grows with every add/remove cycle'
+                    % (short_fn(name), x.describe(bad[0][1])), where=g.where(c), sub='cap#bb%d' % g.nodes[c].bb)
+    # (a tree without any explicitly sized allocation is fine: Vec::clone / push size by length)
+    if n == 0:
+        ctx.add('P13f', 'T-FLOW', ctx.fn1(r'^read_cursor::ReaderGroup::add_stream$'), True, 'no explicitly sized buffer in the crate other than alloc::allocate', sub='none')
